@@ -202,7 +202,8 @@ func C10(r *vf.Run) {
 				n = 0
 			}
 			p := g.Bytes(n)
-			if n > 0 && n < 4000 && g.Intn(6) == 0 {
+			how := g.Intn(5)
+			if n > 0 && n < 4000 && g.Intn(6) == 0 && how < 3 {
 				// the source is itself a view of the image that overlaps the destination
 				// (moving a table inside the ROM): the bytes stored must be p's bytes at call time
 				src := cur - 1 - g.Intn(min(n, 16))
@@ -215,7 +216,26 @@ func C10(r *vf.Run) {
 				}
 			}
 			pc := append([]byte(nil), p...)
-			wn, werr := wr.Write(p)
+			// the bytes reach the writer by a direct Write or through io.Copy from a source that is
+			// only a Reader (delivering everything at once or in pieces)
+			var wn int
+			var werr error
+			switch how {
+			case 3:
+				c := max(len(p), 1)
+				if g.Bool() {
+					c = 1 + g.Intn(c)
+				}
+				n64, err := io.Copy(wr, &plainReader{p: p, chunk: c})
+				wn, werr = int(n64), err
+				cells["write:via-io.Copy-plain-reader"]++
+			case 4:
+				n64, err := io.Copy(wr, io.LimitReader(bytes.NewReader(p), int64(len(p))))
+				wn, werr = int(n64), err
+				cells["write:via-io.Copy-limit-reader"]++
+			default:
+				wn, werr = wr.Write(p)
+			}
 			p = pc // what was handed over
 			r.Eval(1)
 
@@ -437,6 +457,22 @@ func C10(r *vf.Run) {
 		r.Require("low:below8000")
 		r.Require("write:ffff:shape0:exactly-at-end")
 	}
+}
+
+// plainReader is an io.Reader and nothing else (no WriterTo), handing out at most chunk bytes per call.
+type plainReader struct {
+	p     []byte
+	chunk int
+}
+
+func (r *plainReader) Read(b []byte) (int, error) {
+	if len(r.p) == 0 {
+		return 0, io.EOF
+	}
+	n := min(len(b), min(r.chunk, len(r.p)))
+	copy(b, r.p[:n])
+	r.p = r.p[n:]
+	return n, nil
 }
 
 func firstDiff(a, b []byte) int {
